@@ -88,6 +88,22 @@ def setup():
     return _state
 
 
+def set_syntax(deflated):
+    """the transfer syntax of every accepted context of the rig, and the encoding of the `good` reply data set in it:
+    Implicit VR Little Endian (default) or Deflated Explicit VR Little Endian"""
+    S = setup()
+    from pydicom.uid import DeflatedExplicitVRLittleEndian, ImplicitVRLittleEndian
+    from pynetdicom.dsutils import encode
+
+    if deflated:
+        S["ts"] = DeflatedExplicitVRLittleEndian
+        S["good"] = encode(S["ident"], False, True, True)
+    else:
+        S["ts"] = ImplicitVRLittleEndian
+        S["good"] = encode(S["ident"], True, True)
+    S["deflated"] = bool(deflated)
+
+
 class Scripted:
     """Stand-in for DIMSEServiceProvider: scripted get_msg, recording send_msg."""
 
@@ -193,9 +209,16 @@ def lock_held(assoc):
 
 
 def canon_ds(ds):
+    """none / empty / ds - and "garbled" for a non-empty data set that is not the one the scripted peer sent"""
     if ds is None:
         return "none"
-    return "ds" if len(ds) else "empty"
+    if not len(ds):
+        return "empty"
+    try:
+        same = ds == _state["ident"]
+    except Exception:  # noqa: BLE001
+        same = False
+    return "ds" if same else "garbled"
 
 
 def canon_status(ds):
